@@ -48,6 +48,10 @@ type constructorNode struct {
 	// Whether the constructor owned by this node was already called.
 	called bool
 
+	// Whether the constructor owned by this node is being called right now,
+	// that is, its arguments are being built or it is executing.
+	calling bool
+
 	// Type information about constructor parameters.
 	paramList paramList
 
@@ -144,6 +148,25 @@ func (n *constructorNode) Call(c containerStore) (err error) {
 	if n.called {
 		return nil
 	}
+
+	// A constructor that is needed while it is still being built depends on
+	// itself. The graph verification cannot see every such cycle (edges
+	// through decorators are not part of the graph, and with
+	// DeferAcyclicVerification an exported constructor resolves its
+	// dependencies in a scope that the invoking scope does not verify), so
+	// refuse to re-enter instead of recursing without bound or running the
+	// constructor twice.
+	if n.calling {
+		return errCycleDetected{
+			Path: []cycleErrPathEntry{
+				{Key: key{t: n.CType()}, Func: n.Location()},
+				{Key: key{t: n.CType()}, Func: n.Location()},
+			},
+			scope: n.s,
+		}
+	}
+	n.calling = true
+	defer func() { n.calling = false }()
 
 	if err := shallowCheckDependencies(c, n.paramList); err != nil {
 		return errMissingDependencies{
